@@ -17,32 +17,47 @@ def t16_dp_word(rnd):
     return rnd.choice([0xA000, 0xA800, 0xB000]) | rnd.getrandbits(8) | (rnd.getrandbits(3) << 8 if r < 0.97 else 0)
 
 
-def gen(ctx, rnd, n_per_group):
-    groups = []
-    for arch in (4, 5, 6, 7):
-        g = C.Group('pmsa-v%d' % arch, arch_version=arch)
-        groups.append(g)
-        modes = [16, 17, 18, 19, 22, 23, 27, 31]
-        for k in range(n_per_group):
-            thumb = rnd.random() < 0.5
-            st = g.fresh()
-            pc = rnd.randrange(0, 60) * 4
-            it = 0
-            if thumb and rnd.random() < 0.4:
-                fc = rnd.randrange(0, 14)
-                it = (fc << 4) | rnd.choice([8, 4, 12, 2, 6, 10, 14, 1, 3, 5, 7, 9, 11, 13, 15])
-            C.randomize(st, rnd, mode=rnd.choice(modes), thumb=thumb, it=it, pc=pc)
-            if not thumb:
-                name, pat = rnd.choice(G.ARM_DP)
-                w = G.fill(pat, rnd, fixed={'c': rnd.choice(G.COND_BIAS)})
-            elif rnd.random() < 0.5:
-                name, w = 't16', t16_dp_word(rnd)
-            else:
-                name, pat = rnd.choice(G.T32_DP)
-                w = G.fill(pat, rnd)
-            C.put_instr(st, pc, w, thumb)
-            g.add(st, {'n': 'Step'}, meta={'gen': name, 'word': w})
-    return groups
+def gen_task(task):
+    """random data-processing words on one architecture version (runs in a worker process)"""
+    rnd = random.Random(task['seed'])
+    arch = task['arch']
+    g = C.Group(task['name'], arch_version=arch)
+    modes = [16, 17, 18, 19, 22, 23, 27, 31]
+    for k in range(task['n']):
+        thumb = rnd.random() < 0.5
+        st = g.fresh()
+        pc = rnd.randrange(0, 60) * 4
+        it = 0
+        if thumb and rnd.random() < 0.4:
+            fc = rnd.randrange(0, 14)
+            it = (fc << 4) | rnd.choice([8, 4, 12, 2, 6, 10, 14, 1, 3, 5, 7, 9, 11, 13, 15])
+        C.randomize(st, rnd, mode=rnd.choice(modes), thumb=thumb, it=it, pc=pc)
+        if not thumb:
+            name, pat = rnd.choice(G.ARM_DP)
+            w = G.fill(pat, rnd, fixed={'c': rnd.choice(G.COND_BIAS)})
+        elif rnd.random() < 0.5:
+            name, w = 't16', t16_dp_word(rnd)
+        else:
+            name, pat = rnd.choice(G.T32_DP)
+            w = G.fill(pat, rnd)
+        C.put_instr(st, pc, w, thumb)
+        g.add(st, {'n': 'Step'}, meta={'gen': name, 'word': w})
+    return [g]
+
+
+def grid_task(task):
+    """spec -> code: the grid points TLC enumerated in MC_DP (word, Rn, Rm, Rs, carry), executed by emulate_cycle()"""
+    g = C.Group(task['name'], arch_version=7)
+    for sc in task['items']:
+        st = g.fresh()
+        C.randomize(st, random.Random(0), mode=19, thumb=False, pc=64)
+        st['R']['R0usr'] = [23130, 42405]
+        st['R']['R1usr'], st['R']['R2usr'], st['R']['R3usr'] = sc['x'], sc['y'], sc['rs']
+        st['cpsr'] = [sc['c'] * 8192 + 16384 + 4096, 19]
+        w = (sc['w'][0] << 16) | sc['w'][1]
+        C.put_instr(st, 64, w, False)
+        g.add(st, {'n': 'Step'}, meta={'gen': 'mc_dp', 'word': w})
+    return [g]
 
 
 DP_PATH_PREFIXES = ('exact:',)
@@ -53,16 +68,44 @@ def clause_filter(c, v, e):
     return v['path'].startswith('exact') and c not in ('range', 'confine', 'nop-on-condfail')
 
 
+def _dispatch(t):
+    return t[0](t[1])
+
+
 def run(ctx):
+    from .. import tlc
+    from ..tlc import MachineryError
     rnd = random.Random(ctx.seed)
+    q = ctx.quick
     ctx.mc('MC_Cond', workers=4)
-    n = 1500 if ctx.quick else 40000
-    groups = gen(ctx, rnd, n)
+    # the data-processing semantics of the specification against the property's wording (no AddWithCarry), on the grid
+    # opcode x S x carry x operand-2 form x boundary operands; then the same grid is executed by the real code
+    nv = '3' if q else '6'
+    ctx.mc('MC_DP', constants={'GEN': 'FALSE', 'NV': nv}, coverage=False, timeout=3000)
+    rs = ctx.mc('MC_DP', constants={'GEN': 'TRUE', 'NV': nv}, coverage=False, timeout=3000)
+    grid = [x for x in tlc.printed_json(rs['out']) if isinstance(x, dict) and 'w' in x]
+    if len(grid) < 15000:
+        raise MachineryError('MC_DP printed only %d grid points' % len(grid))
+    n = 1500 if q else 12000
+    tasks = [(gen_task, dict(name='pmsa-v%d-%d' % (arch, j), arch=arch, seed=ctx.seed + 10 * arch + j, n=n))
+             for arch in (4, 5, 6, 7) for j in range(4)]
+    tasks += [(grid_task, dict(name='mcdp-%d' % i, items=grid[i::16])) for i in range(16)]
+    groups = C.parallel(_dispatch, tasks)
+    ctx.behaviours += len(grid)
     res = C.judge_groups(ctx, groups, clause_filter, rnd=rnd,
                          tags_of=lambda g, e, v: {'arch': g.cfg['arch_version'], 'enc': v['path'].split(':')[-1]})
+    notexact = sum(1 for g, e, v in res if g.name.startswith('mcdp-') and not v['path'].startswith('exact:'))
+    if notexact:
+        raise MachineryError('%d MC_DP grid points were not judged exactly' % notexact)
     exact = sum(1 for g, e, v in res if v['path'].startswith('exact'))
     ctx.extra['exact_events'] = exact
     ctx.extra['envelope_only_events'] = len(res) - exact
+    ctx.extra['mc_dp_grid_points_replayed'] = len(grid)
+    ctx.extra['rule'] = ('MC_DP (TLC): 16 opcodes x S x carry-in x {immediate rotations, LSL/LSR/ASR/ROR #0/#1/#31/#32, RRX, register-'
+                         'shifted with Rs in 0,1,31,32,33,255,256} x boundary operands: result / N Z C V against the prose '
+                         '(carry as an unsigned comparison, overflow by signs, logical ops take C from the shifter and keep V), '
+                         'frame; every grid point then executed by emulate_cycle() and judged on the complete state; plus seeded '
+                         'random ARM / 16-bit / 32-bit Thumb data-processing words on ARMv4..v7 in 8 modes, inside and outside IT blocks')
     for g, e, v in res[:3]:
         ctx.sample({'group': g.name, 'event': e, 'verdict': v})
     ctx.distinct = {(g.name, e['id']) for g, e, v in res if v['path'].startswith('exact')}
